@@ -1,5 +1,7 @@
 mod export;
 mod lattice;
+mod mbuilder;
+mod pbuilder;
 mod models;
 mod prob;
 mod report;
@@ -26,6 +28,8 @@ fn main() {
             };
             lattice::run(path, &opts)
         }
+        "pbuilder" => pbuilder::run(args.get(2).expect("export file")),
+        "mbuilder" => mbuilder::run(args.get(2).expect("export file")),
         other => {
             eprintln!("unknown subcommand {other}");
             std::process::exit(2);
